@@ -9,9 +9,17 @@
    shipped: FALSE - StartNode wrote it without one).  Compaction replaces a prefix
    of the log by a snapshot; SnapshotHasBook says whether the snapshot carries the
    address book (as shipped: FALSE - it holds catalogue data only).  A restart
-   rebuilds the book from the snapshot and the remaining entries. *)
+   rebuilds the book from the snapshot and the remaining entries.
+
+   Being listed is not being reachable: the raft transport keeps one client per peer,
+   built on the connection the address book holds; removing a node closes that
+   connection.  dead[m] is the set of peers for which member m holds a client on a
+   closed connection.  ForgetClientOnRemove says whether applying a Leave also drops
+   the client (as shipped: FALSE - a node that leaves and joins again under the same id
+   can never be sent a message by the members that knew it before).  A restart of m
+   empties dead[m] (new process, new clients). *)
 EXTENDS Integers, Sequences, FiniteSets, TLC
-CONSTANTS Nodes, Boot, MaxLog, SnapshotHasBook, BootHasAddr
+CONSTANTS Nodes, Boot, MaxLog, SnapshotHasBook, BootHasAddr, ForgetClientOnRemove
 NoAddr == 0
 Addr(n) == n     \* the address a node announces is identified with the node
 
@@ -20,8 +28,9 @@ VARIABLES log,      \* Seq([op, n, addr])
           snapBook, \* [Nodes -> book]: the book stored in m's snapshot (empty unless SnapshotHasBook)
           book,     \* [Nodes -> [SUBSET Nodes -> address]]
           applied,  \* [Nodes -> Nat]
-          up, members
-vars == <<log, snapIdx, snapBook, book, applied, up, members>>
+          up, members,
+          dead      \* [Nodes -> SUBSET Nodes]: peers for which m's transport holds a client on a closed connection
+vars == <<log, snapIdx, snapBook, book, applied, up, members, dead>>
 Empty == [x \in {} |-> 0]
 Put(f, x, v) == [y \in DOMAIN f \cup {x} |-> IF y = x THEN v ELSE f[y]]
 AddNode(b, n, a) == IF n \in DOMAIN b /\ b[n] # NoAddr THEN b ELSE Put(b, n, a)   \* first non-empty address wins
@@ -32,28 +41,33 @@ Init == /\ log = << [op |-> "join", n |-> Boot, addr |-> IF BootHasAddr THEN Add
         /\ snapIdx = [m \in Nodes |-> 0] /\ snapBook = [m \in Nodes |-> Empty]
         /\ book = [m \in Nodes |-> IF m = Boot THEN (Boot :> Addr(Boot)) ELSE Empty]
         /\ applied = [m \in Nodes |-> 0] /\ up = [m \in Nodes |-> m = Boot] /\ members = {Boot}
+        /\ dead = [m \in Nodes |-> {}]
 \* the join hand-shake: n asks member m; m proposes Join(n, addr) and streams its book (+ n) back
 Join(n, m) == /\ n \notin members /\ m \in members /\ up[m] /\ Len(log) < MaxLog
               /\ log' = Append(log, [op |-> "join", n |-> n, addr |-> Addr(n)])
               /\ members' = members \cup {n} /\ up' = [up EXCEPT ![n] = TRUE]
               /\ book' = [book EXCEPT ![n] = [y \in DOMAIN book[m] \cup {n} |-> IF y = n THEN Addr(n) ELSE book[m][y]]]
-              /\ UNCHANGED <<snapIdx, snapBook, applied>>
+              /\ UNCHANGED <<snapIdx, snapBook, applied, dead>>
 Leave(n) == /\ n \in members /\ n # Boot /\ Len(log) < MaxLog
             /\ log' = Append(log, [op |-> "leave", n |-> n, addr |-> NoAddr])
             /\ members' = members \ {n}
-            /\ UNCHANGED <<snapIdx, snapBook, book, applied, up>>
+            /\ UNCHANGED <<snapIdx, snapBook, book, applied, up, dead>>
 Apply(m) == /\ up[m] /\ applied[m] < Len(log)
             /\ applied' = [applied EXCEPT ![m] = @ + 1]
             /\ book' = [book EXCEPT ![m] = StepB(@, log[applied[m] + 1])]
+            /\ LET e == log[applied[m] + 1] IN
+               dead' = [dead EXCEPT ![m] = IF e.op = "leave" /\ e.n # m /\ e.n \in DOMAIN book[m] /\ ~ForgetClientOnRemove
+                                            THEN @ \cup {e.n} ELSE @]
             /\ UNCHANGED <<log, snapIdx, snapBook, up, members>>
 Compact(m) == /\ up[m] /\ applied[m] > snapIdx[m]
               /\ snapIdx' = [snapIdx EXCEPT ![m] = applied[m]]
               /\ snapBook' = [snapBook EXCEPT ![m] = IF SnapshotHasBook THEN book[m] ELSE Empty]
-              /\ UNCHANGED <<log, book, applied, up, members>>
+              /\ UNCHANGED <<log, book, applied, up, members, dead>>
 \* restart: own entry, then snapshot, then the entries after it are replayed by Apply
 Restart(m) == /\ up[m]
               /\ book' = [book EXCEPT ![m] = AddNode(snapBook[m], m, Addr(m))]
               /\ applied' = [applied EXCEPT ![m] = snapIdx[m]]
+              /\ dead' = [dead EXCEPT ![m] = {}]
               /\ UNCHANGED <<log, snapIdx, snapBook, up, members>>
 Next == \/ \E n, m \in Nodes : Join(n, m)
         \/ \E n \in Nodes : Leave(n) \/ Apply(n) \/ Compact(n) \/ Restart(n)
@@ -62,6 +76,8 @@ Spec == Init /\ [][Next]_vars
 \* C20: a member that has applied the whole log lists exactly the members, each with a usable address
 Caught(m) == up[m] /\ m \in members /\ applied[m] = Len(log)
 ViewOK == \A m \in Nodes : Caught(m) => (DOMAIN book[m] = members /\ \A n \in members : book[m][n] = Addr(n))
+\* a member can be sent messages by every other member: nobody holds a dead client for it
+NoDeadClient == \A m \in members : \A n \in members : n \notin dead[m]
 \* weaker: ids only (what holds even as shipped for nodes that never restart after a compaction)
 IdsOK == \A m \in Nodes : Caught(m) => members \subseteq DOMAIN book[m]
 =============================================================================
